@@ -59,6 +59,99 @@ def _mkfn(name, args, body, annotations):
     return ast.fix_missing_locations(fn)
 
 
+class _Refine(ast.NodeTransformer):
+    """Turn the state-updating refinement code into a pure function of the current range:
+    `return state` -> `return None` (no refinement); `self._write_range(state, v, X)` -> `return X`;
+    `self._narrow_var(state, v, bound, inst.opcode, is_true, lo, hi, left_side=B)` -> `return narrow(current, bound, opcode, is_true, lo, hi, B)`;
+    `inst.opcode` -> `opcode`; `<lit>.value` -> `lit_value`."""
+
+    def __init__(self, litname):
+        self.litname = litname
+
+    def visit_Return(self, node):
+        if isinstance(node.value, ast.Name) and node.value.id == "state":
+            return ast.Return(value=ast.Constant(value=None))
+        return self.generic_visit(node)
+
+    def visit_Attribute(self, node):
+        self.generic_visit(node)
+        if isinstance(node.value, ast.Name) and node.value.id == "inst" and node.attr == "opcode":
+            return ast.Name(id="opcode", ctx=ast.Load())
+        if isinstance(node.value, ast.Name) and node.value.id == self.litname and node.attr == "value":
+            return ast.Name(id="lit_value", ctx=ast.Load())
+        return node
+
+    def visit_Call(self, node):
+        self.generic_visit(node)
+        # x.clamp(None, h) -> x.clamp_hi(h)
+        if isinstance(node.func, ast.Attribute) and node.func.attr == "clamp" and len(node.args) == 2 \
+                and isinstance(node.args[0], ast.Constant) and node.args[0].value is None:
+            return ast.Call(func=ast.Attribute(value=node.func.value, attr="clamp_hi", ctx=ast.Load()), args=[node.args[1]], keywords=[])
+        return node
+
+    def visit_Expr(self, node):
+        self.generic_visit(node)
+        c = node.value
+        if isinstance(c, ast.Call):
+            f = ast.unparse(c.func)
+            if f == "self._write_range":
+                return ast.Return(value=c.args[2])
+            if f == "self._narrow_var":
+                left = [k.value for k in c.keywords if k.arg == "left_side"][0]
+                return ast.Return(value=ast.Call(func=ast.Name(id="narrow", ctx=ast.Load()),
+                                                 args=[ast.Name(id="current", ctx=ast.Load())] + c.args[2:] + [left], keywords=[]))
+        return node
+
+
+def _drop_current_assign(stmts):
+    out = []
+    for s_ in stmts:
+        if isinstance(s_, ast.Assign) and isinstance(s_.targets[0], ast.Name) and s_.targets[0].id == "current" \
+                and "state.get" in ast.unparse(s_.value):
+            continue
+        out.append(s_)
+    return out
+
+
+def _refinement_functions(ana):
+    fns = []
+    cls = "VariableRangeAnalysis"
+    # narrow(current, bound, opcode, is_true, min_bound, max_bound, left_side)
+    nv = _method(ana, cls, "_narrow_var")
+    body = _drop_current_assign([s_ for s_ in nv.body if not (isinstance(s_, ast.Expr) and isinstance(s_.value, ast.Constant))])
+    body = [_Refine("__none__").visit(s_) for s_ in body] + [ast.Return(value=ast.Constant(value=None))]
+    fns.append(_mkfn("narrow", ["current", "bound", "opcode", "is_true", "min_bound", "max_bound", "left_side"], body,
+                     {"current": "ValueRange", "bound": "int", "opcode": "str", "is_true": "bool", "min_bound": "int",
+                      "max_bound": "int", "left_side": "bool"}))
+    # refine_compare_left / refine_compare_right : the two arms of _apply_compare
+    ac = _method(ana, cls, "_apply_compare")
+    pre = []
+    arms = None
+    for s_ in ac.body:
+        if isinstance(s_, ast.If) and "isinstance(lhs, IRVariable)" in ast.unparse(s_.test):
+            arms = s_
+            break
+        if isinstance(s_, ast.Assign) and ast.unparse(s_.targets[0]) in ("signed", "min_bound", "max_bound"):
+            pre.append(s_)
+    if arms is None or len(arms.orelse) != 1 or not isinstance(arms.orelse[0], ast.If):
+        raise SliceError("_apply_compare does not have the expected two-arm shape")
+    import copy
+    for nm, arm, lit in (("refine_compare_left", arms.body, "rhs"), ("refine_compare_right", arms.orelse[0].body, "lhs")):
+        body = copy.deepcopy(pre) + _drop_current_assign(copy.deepcopy(arm))
+        body = [_Refine(lit).visit(s_) for s_ in body] + [ast.Return(value=ast.Constant(value=None))]
+        fns.append(_mkfn(nm, ["current", "lit_value", "opcode", "is_true"], body,
+                         {"current": "ValueRange", "lit_value": "int", "opcode": "str", "is_true": "bool"}))
+    # refine_iszero_false(current): the else-branch of _apply_iszero (true branch is constant 0)
+    iz = _method(ana, cls, "_apply_iszero")
+    last_if = [s_ for s_ in iz.body if isinstance(s_, ast.If) and ast.unparse(s_.test) == "is_true"]
+    if not last_if:
+        raise SliceError("_apply_iszero: `if is_true` not found")
+    body = _drop_current_assign(copy.deepcopy(last_if[0].orelse))
+    body = [_Refine("__none__").visit(s_) for s_ in body] + [ast.Return(value=ast.Constant(value=None))]
+    fns.append(_mkfn("refine_iszero_false", ["current"], body, {"current": "ValueRange"}))
+    return fns
+
+
 def build_module_source():
     passes = REPO / "vyper" / "venom" / "passes"
     ovf = ast.parse((passes / "overflow_elimination.py").read_text())
@@ -100,10 +193,26 @@ def build_module_source():
     fns.append(_mkfn("range_cmp_kernel", ["lit_val", "var_range", "is_gt", "signed", "lit_is_first"],
                      _tail_after_assign(rc, "var_range"),
                      {"lit_val": "int", "var_range": "ValueRange", "is_gt": "bool", "signed": "bool", "lit_is_first": "bool"}))
+    # ---- branch refinement in variable_range/analysis.py (_apply_compare/_narrow_var, _apply_iszero, _apply_eq)
+    ana = ast.parse((REPO / "vyper" / "venom" / "analysis" / "variable_range" / "analysis.py").read_text())
+    fns += _refinement_functions(ana)
     hdr = textwrap.dedent("""
         # GENERATED by tools/vlib/c14_clients.py: decision kernels sliced from /repo venom passes
         from vyper.utils import SizeLimits, wrap256
-        from vyper.venom.analysis.variable_range.value_range import UNSIGNED_MAX, ValueRange
+        from vyper.venom.analysis.variable_range.value_range import SIGNED_MAX, SIGNED_MIN, UNSIGNED_MAX, ValueRange
+
+
+        class _R:
+            # adapter so that the sliced `x.clamp_hi(h)` (= x.clamp(None, h)) runs on real ValueRange objects
+
+            def __init__(self, r):
+                self._r = r
+
+            def __getattr__(self, name):
+                return getattr(self._r, name)
+
+            def clamp_hi(self, h):
+                return self._r.clamp(None, h)
     """)
     mod = ast.Module(body=fns, type_ignores=[])
     return hdr + "\n\n" + ast.unparse(ast.fix_missing_locations(mod)) + "\n"
@@ -138,6 +247,15 @@ def gen_coq():
     tr.arg_types_hint[("wrap256", "signed")] = Ty.B
     tr.arg_types_hint[("unsigned_to_signed", "strict")] = Ty.B
     tr.arg_types_hint[("int_bounds", "signed")] = Ty.B
-    for f in ["add_elim_cond", "sub_elim_cond", "_range_excludes_zero", "signextend_noop_cond", "range_cmp_kernel"]:
+    VRo = opt(VR)
+    tr.ret_hints.update({"narrow": VRo, "refine_compare_left": VRo, "refine_compare_right": VRo, "refine_iszero_false": VRo})
+    tr.attr_bindings[(VR, "clamp")] = dict(coq="vr_clamp2", ret=VR, call=True, args=[Ty.Z, Ty.Z])
+    tr.attr_bindings[(VR, "clamp_hi")] = dict(coq="vr_clamp_hi", ret=VR, call=True, args=[Ty.Z])
+    tr.attr_bindings[(VR, "intersect")] = dict(coq="vr_intersect", ret=VR, call=True, args=[VR])
+    tr.bindings["ValueRange.iv"] = dict(coq="vr_iv", args=[Ty.Z, Ty.Z], ret=VR)
+    tr.bindings["ValueRange.constant"] = dict(coq="vr_constant", args=[Ty.Z], ret=VR)
+    tr.type_names["str"] = Ty.S
+    for f in ["add_elim_cond", "sub_elim_cond", "_range_excludes_zero", "signextend_noop_cond", "range_cmp_kernel",
+              "narrow", "refine_compare_left", "refine_compare_right", "refine_iszero_false"]:
         tr.translate_function(f)
     return tr.render(header="From Verif Require Import C14.RangeBase."), src
